@@ -1,7 +1,7 @@
 // Command lockir is the C20 half of the translator: for every method of
 // bloom.Filter and gcs.Filter it emits, into coq/theories/Gen/LockIR.v, the
 // sequence of lock-relevant events along every syntactic path of the body
-// (loops taken 0, 1 or 2 times).  It only uses go/parser and go/ast; it decides
+// (loops taken 0..3 times in exported methods, 0..1 times in unexported ones).  It only uses go/parser and go/ast; it decides
 // nothing: whether the sequences obey the lock discipline is checked in Coq
 // (Conc/Conc.v, Props/C20.v).
 //
@@ -110,9 +110,18 @@ type walker struct {
 	ti      *typeInfo
 	recv    string
 	aliases map[string]string // local variable -> receiver field it was initialised from
+	maxIter int
 }
 
-const maxPaths = 20000
+const maxPaths = 200000
+
+// loop bodies are taken 0..maxIter times.  The automaton the Coq checks run over a path has the states
+// before-Lock < inside < after-Unlock (monotone), so a violating run needs at most two state-changing iterations
+// plus the violating one: any violation reachable with n iterations is reachable with at most 3.
+// For unexported methods the checks are per event (which events occur, not in which order or how often), and
+// every statement lies on a path that takes each enclosing loop once, so one iteration is enumerated there.
+const maxIterExported = 3
+const maxIterUnexported = 1
 
 func isRefType(e ast.Expr) bool {
 	switch t := e.(type) {
@@ -467,14 +476,14 @@ func (w *walker) loop(label string, init ast.Stmt, cond ast.Expr, post ast.Stmt,
 		cur = addAll(cur, w.expr(rangeX))
 	}
 	var exits []path
-	for iter := 0; iter <= 2; iter++ {
+	for iter := 0; iter <= w.maxIter; iter++ {
 		if cond != nil {
 			cur = addAll(cur, w.expr(cond))
 		}
 		if cond != nil || rangeX != nil {
 			exits = append(exits, cur...) // condition false / range exhausted
 		}
-		if iter == 2 {
+		if iter == w.maxIter {
 			break // paths needing a third iteration are not enumerated
 		}
 		for _, l := range rangeLHS {
@@ -843,7 +852,10 @@ func analyse(dir, typeName string) (string, []string, error) {
 	for i, n := range names {
 		fd := ti.methods[n]
 		_, recv := recvTypeName(fd)
-		w := &walker{ti: ti, recv: recv, aliases: map[string]string{}}
+		w := &walker{ti: ti, recv: recv, aliases: map[string]string{}, maxIter: maxIterUnexported}
+		if ast.IsExported(n) {
+			w.maxIter = maxIterExported
+		}
 		var paths []path
 		if recv == "" || recv == "_" || fd.Body == nil {
 			paths = []path{{ev: []event{{kind: "Return"}}}}
@@ -885,7 +897,7 @@ func main() {
 	var sb strings.Builder
 	sb.WriteString("(* GENERATED by harness/cmd/lockir from the Go sources (go/ast only); do not edit.\n")
 	sb.WriteString("   For every method of bloom.Filter and gcs.Filter: the lock-relevant events along every syntactic\n")
-	sb.WriteString("   path of its body (loops taken 0, 1 or 2 times; defer = at every following Return). *)\n")
+	sb.WriteString("   path of its body (loops taken 0..3 times in exported methods, 0..1 times in unexported ones; defer = at every following Return). *)\n")
 	sb.WriteString("From Coq Require Import List String.\nFrom BU Require Import Conc.LockEvents.\nImport ListNotations.\n\n")
 	for _, t := range []struct{ dir, typ, name string }{{"bloom", "Filter", "bloom_methods"}, {"gcs", "Filter", "gcs_methods"}} {
 		body, files, err := analyse(filepath.Join(*repo, t.dir), t.typ)
